@@ -141,7 +141,9 @@ def run_case(case: dict[str, Any]) -> dict[str, Any]:  # noqa: C901, PLR0912, PL
             if case.get("inner_shift"):
                 # a scripted inner 'optimization': its result differs only slightly from the vector it was started with
                 moved = np.array(variables, dtype=np.float64)
-                moved[~free] += case["inner_shift"] * (1.0 + np.abs(moved[~free]))
+                # (towards the middle of the bounds [-1, 2]: the property quantifies over values inside the bounds)
+                inward = np.where(np.asarray(user, dtype=np.float64)[~free] > 0.5, -1.0, 1.0)  # noqa: PLR2004
+                moved[~free] += inward * abs(case["inner_shift"]) * (1.0 + np.abs(moved[~free]))
                 plan.set(inner_tracker, "results", None)
                 plan.run_step(inner_eval, config=inner_cfg, transforms=transforms, variables=moved)
             else:
